@@ -228,6 +228,45 @@ def parameterless_differential(chk: Check) -> None:
         chk.violation("differential:counterexample-without-inputs", f"failing tests without a counterexample variable: cache off {res['off']}, cache on {res['on']} (each must be FAIL with one counterexample in both)", res)
 
 
+def coreless_solver_differential(chk: Check, cases, results, work: Path, limit: int) -> None:
+    """The same generated contracts, solved through a front-end that answers like the real solver but whose reply to
+    `(get-unsat-core)` is the empty list `()` (harness/coreless_solver.py).  An empty core names no constraint of the query it
+    was computed for, so it proves nothing about the next query: cache off and cache on must report the same verdicts,
+    results per path and counterexamples.  Contracts in which the real solver's cores answered later queries are used."""
+    import dataclasses
+
+    from halmos.solvers import get_solver_command
+
+    picked = [c for c in cases if tuple(c.cli[:2]) == ("--solver-threads", "1")
+              and results[c.index]["stats"]["cores"] and results[c.index]["stats"]["hits"]]
+    if not picked:
+        picked = [c for c in cases if tuple(c.cli[:2]) == ("--solver-threads", "1") and results[c.index]["stats"]["cores"]]
+    if not picked:
+        raise MachineryError("no single-threaded case stored an unsat core: the empty-core differential has nothing to run on")
+    front = str(Path(uc.__file__).with_name("coreless_solver.py"))
+    for case in picked[:limit]:
+        solver = "z3" if "z3" in case.cli else "yices"
+        cmd = " ".join(["/venv/bin/python", front] + get_solver_command(solver))
+        cl = dataclasses.replace(case, cli=tuple(case.cli) + ("--solver-command", cmd))
+        rec_off, out_off, _ = uc.unsatcache_run(cl, cache=False, dump=work / "dump")
+        rec_on, out_on, _ = uc.unsatcache_run(cl, cache=True, dump=work / "dump")
+        s_off, s_on = uc.unsatcache_summary(rec_off, out_off), uc.unsatcache_summary(rec_on, out_on)
+        diffs = [list(d) for d in uc.unsatcache_compare(s_off, s_on)]
+        # the front-end must not change what the real solver says (cache off): compare with the run without it
+        plain = [list(d) for d in uc.unsatcache_compare(results[case.index]["s_off"], s_off) if d[1] not in ("inconclusive", "model-shape")]
+        if plain:
+            raise MachineryError(f"the coreless front-end changed answers with the cache off on case {case.index}: {plain[:3]}")
+        nun = sum(1 for t in s_on["tests"].values() for y in t["paths"].values() if y["result"] == "unsat")
+        chk.count("coreless_solver_pairs")
+        chk.count("coreless_unsat_replies", nun)
+        chk.count("traces_validated_against_impl")
+        if nun:
+            chk.nontrivial(("coreless", case.key()))
+        report_diffs(chk, case, diffs, "solver that replies with an empty unsat core, same process", s_off, s_on)
+    if not chk.cov.get("coreless_unsat_replies") and not chk.nviol:
+        raise MachineryError("the coreless front-end never answered unsat: the empty-core differential exercised nothing")
+
+
 def run(chk: Check, tier: str):
     work = workdir("c16")
     bg = Background()
@@ -332,6 +371,7 @@ def run(chk: Check, tier: str):
                 fidelity.append(f"trace machinery: {detail}\n{json.dumps(ev)[:1500]}")
         for case in cases:
             judge_differential(chk, case, results[case.index])
+        coreless_solver_differential(chk, cases, results, work, 2 if tier == "quick" else 8)
         base = {}  # fresh-process baseline (cache off; nothing else ever ran in those processes)
         for k in range(nb):
             for case, s in zip(cases[:nfresh][k::nb], bg.results[f"baseline{k}"]):
